@@ -764,7 +764,8 @@ Inductive build_result : Type :=
 | BOk (st : sstate)
 | BErr (msg : string)
 | BNoProgress (unresolved : list path)
-| BPanic (msg : string).
+| BPanic (msg : string)
+| BFuel.   (* the model's own recursion bound; proved unreachable (TotalityLemmas) *)
 
 Definition set_resolved (st : sstate) (p : path) (r : resolved) : sstate :=
   match reg_get (st_reg st) p with
@@ -806,7 +807,7 @@ Definition schedule := list path -> list path.
 
 Fixpoint resolve_loop (order : schedule) (fuel : nat) (st : sstate) : build_result :=
   match fuel with
-  | O => BPanic "model: resolution fuel exhausted"
+  | O => BFuel
   | S f =>
     let to_resolve := order (reg_unresolved (st_reg st)) in
     match to_resolve with
